@@ -49,8 +49,8 @@ func replayCmd(verifDir, repoDir, path string) int {
 		fmt.Fprintln(os.Stderr, "replay: file has no session")
 		return 2
 	}
-	if rp.Variant == "small" {
-		// same knobs (by name/file/value) must still exist in the current tree
+	if rp.Variant != "" {
+		// the same knobs / hash functions (by name, file, value) must still exist in the current tree
 		var ks []instr.Knob
 		for _, want := range rp.Knobs {
 			for _, have := range e.Report.Knobs {
@@ -60,15 +60,24 @@ func replayCmd(verifDir, repoDir, path string) int {
 				}
 			}
 		}
-		if len(ks) != len(rp.Knobs) {
-			fmt.Println("not reproduced on this tree: the capacity constants the replay shrinks no longer exist")
+		var hs []instr.HashFunc
+		for _, want := range rp.WeakHashes {
+			for _, have := range e.Report.HashFuncs {
+				if have.Name == want.Name && have.File == want.File {
+					hs = append(hs, have)
+					break
+				}
+			}
+		}
+		if len(ks) != len(rp.Knobs) || len(hs) != len(rp.WeakHashes) {
+			fmt.Println("not reproduced on this tree: the constants / hash functions the replay's configuration variant changes no longer exist")
 			return 0
 		}
-		if err := prepareSmall(e, ks); err != nil {
-			fmt.Println("not reproduced on this tree: the shrunk variant does not build:", err)
+		if err := prepareVariant(e, rp.Variant, ks, hs, rp.WeakBits); err != nil {
+			fmt.Println("not reproduced on this tree: the configuration variant does not build:", err)
 			return 0
 		}
-		curVariant = "small"
+		curVariant = rp.Variant
 	}
 	if err := refreshExpected(e, rp.Session); err != nil {
 		harnessFail("replay: reference evaluation failed: %v", err)
